@@ -78,7 +78,7 @@ DICT = ["rule", "private", "global", "meta", "strings", "condition", "import", "
         "matches", "contains", "filesize", "entrypoint", "true", "false", "ascii", "wide", "nocase", "fullword", "xor", "base64", "base64wide",
         "{", "}", "(", ")", "[", "]", ":", "=", ",", ".", "..", "|", "&", "^", "~", "%", "\\", "<<", "-", "*", "$", "#", "@", "!", "$a", "#a", "@a[1]", "$*",
         "undefined_identifier_xyz", '"abc"', "1.5", "0", "0x7fffffffffffffff+1", "9223372036854775808", "i" * 129, '"' + "s" * 9000 + '"', "/" + "a" * 9000 + "/",
-        '"unterminated', "/* unterminated", "/unterminated", "{ 41 [2-1] 42 }", "{ 41 ", "/a{2,1}/", "/(/", "/[z-a]/", "/a**/", "/\\xZZ/", "xor(300)", "xor(5-2)",
+        '"unterminated', "/* unterminated", "/unterminated", "{ 41 [2-1] 42 }", "{ 41 ", "/a{2,1}/", "/(/", "/[z-a]/", "/a**/", "/\\xZZ/", "/[\\x80-\\xff]/", "/[^\\x01-\\xff]+/", "/[a-\\xff]/", "xor(300)", "xor(5-2)",
         'base64("short")', 'include "missing.yar"', 'include "loop_a.yar"', 'include "deep1.yar"', 'import "nosuchmodule"', 'import "tests"', "tests.undefined.i", "tests.nosuchfield",
         "for any i in (0..1) : (for any j in (0..1) : (for any k in (0..1) : (for any l in (0..1) : (for any m in (0..1) : (true)))))", "uint8(", "\x00", "\xff", "\n\n", "1 \\ 0"]
 
@@ -162,7 +162,7 @@ def error_catalogue():
 def regex_sequences(quick):
     """every sequence of <= L regex tokens (valid pieces, unknown escapes, pieces the regex lexer / parser reject), as a string and as a
     `matches` operand; each compiled twice: strict escape checking off and on (which may only add warnings)"""
-    R = ["a", "b", "\\R", "\\w", "(", ")", "|", "*", "[z-a]", "[", "\\1", "{1,99999}", "{2,1}", ".", "\\x4", "\\q+"]
+    R = ["a", "b", "\\R", "\\w", "(", ")", "|", "*", "[z-a]", "[", "\\1", "{1,99999}", "{2,1}", ".", "\\x4", "\\q+", "[\\x80-\\xff]", "[^\\x00-\\xff]"]
     out = []
     L = 3 if quick else 4
     for n in range(1, L + 1):
@@ -331,7 +331,7 @@ def main():
                          dict(text=text, rejected_without_strict=lax[0], rejected_with_strict=strict[0], warnings_with_strict=strict[2]))
         elif not lax[0] and lax[1] != strict[1]:
             ck.violation("C07:strict-escape-mode-changes-scan-result", dict(text=text, without_strict=lax[1][:300], with_strict=strict[1][:300]))
-    ck.sub("regex-sequences:strict-vs-lax", pairs=npairs, note="every sequence of <=%d tokens of a 16-token regex alphabet (unknown escapes, lexer and parser errors) compiled with strict_escape off and on" % (3 if quick else 4))
+    ck.sub("regex-sequences:strict-vs-lax", pairs=npairs, note="every sequence of <=%d tokens of an 18-token regex alphabet (unknown escapes, lexer and parser errors) compiled with strict_escape off and on" % (3 if quick else 4))
     ck.cov["error_codes_provoked"] = {str(k): v for k, v in sorted(codes.items())}
     ck.cov["error_catalogue"] = dict(entries=len(cat), distinct_codes=len(set(v for v in cat.values() if v)), compiled_without_error=sorted(k for k, v in cat.items() if not v))
     ck.cov["distinct_nontrivial"] = stats["failed"]
